@@ -36,26 +36,28 @@ structure Inv (s : GState R O) : Prop where
   c1 : s.spawning = true → s.blocker = true
   c1' : s.spawning = false → s.pending = []
   c2 : ∀ r, aget r s.spawned = some true → r ∉ s.listed → r ∈ s.resTog
-  c3 : ∀ ro, ro ∈ s.listing → ro ∉ s.indexedOnce → ro ∈ s.objTog
+  c3 : ∀ ro, ro ∈ s.listing → ro ∉ s.indexedOnce → ro ∈ s.objTog ∨ ro ∈ s.leaked
   c4 : ∀ r, r ∈ s.detached → s.everOn = true
   c4' : ∀ r, r ∈ s.detached → aget r s.spawned = some true → r ∈ s.listed
-  c5 : ∀ ro w, s.workers ro = some w → w.pc ≠ .queued → ro ∈ s.indexedOnce
+  c5 : ∀ ro w, s.workers ro = some w → w.pc ≠ .queued → w.pc ≠ .idle → ro ∈ s.indexedOnce
   c6 : ∀ r, r ∈ s.detached → (aget r s.spawned).isSome = true
   c7 : s.started = true → s.spawning = false → s.firstDone = true
   c8 : ∀ r, r ∈ s.first → aget r s.spawned = some true
   a : s.everOn = false → s.handled = false ∧
-        ∀ ro w, s.workers ro = some w → w.gated = true ∧ (w.pc = .queued ∨ w.pc = .indexed ∨ w.pc = .waiting)
+        ∀ ro w, s.workers ro = some w → w.gated = true ∧
+          (w.pc = .queued ∨ w.pc = .indexed ∨ w.pc = .waiting ∨ w.pc = .idle)
   b : s.everOn = true → Ready1 s
 
 theorem inv_init : Inv (GState.init : GState R O) := by
   refine ⟨?_, ?_, ?_, ?_, ?_, ?_, ?_, ?_, ?_, ?_, ?_, ?_, ?_⟩ <;> simp [GState.init]
 
-theorem isOn_iff (s : GState R O) : s.isOn = true ↔ s.blocker = false ∧ s.resTog = [] ∧ s.objTog = [] := by
+theorem isOn_iff (s : GState R O) :
+    s.isOn = true ↔ s.blocker = false ∧ s.resTog = [] ∧ s.objTog = [] ∧ s.leaked = [] := by
   simp [GState.isOn, and_assoc]
 
 /-- whoever sees the set on sees a complete, listed and indexed start-up -/
 theorem ready_of_isOn {s : GState R O} (hi : Inv s) (hon : s.isOn = true) : Ready s := by
-  obtain ⟨hb, hr, ho⟩ := (isOn_iff s).1 hon
+  obtain ⟨hb, hr, ho, hlk⟩ := (isOn_iff s).1 hon
   have hsp : s.spawning = false := by
     cases h : s.spawning with
     | false => rfl
@@ -74,7 +76,7 @@ theorem ready_of_isOn {s : GState R O} (hi : Inv s) (hon : s.isOn = true) : Read
     | false =>
       have hnl : ro ∉ s.indexedOnce := by simpa using hd
       have := hi.c3 ro hro hnl
-      simp [ho] at this
+      simp [ho, hlk] at this
 
 theorem started_of_spawned {s : GState R O} (hi : Inv s) {r : R} {ind : Bool}
     (h : aget r s.spawned = some ind) : s.started = true := by
@@ -115,21 +117,21 @@ theorem ready1_mono {s s' : GState R O} (h : Ready1 s)
 /-- changing only a worker's pc -/
 theorem inv_setPc {s : GState R O} (hi : Inv s) (ro : R × O) (w : Worker) (pc : Pc)
     (hw : s.workers ro = some w)
-    (h5 : pc ≠ .queued → ro ∈ s.indexedOnce)
-    (ha : s.everOn = false → pc = .queued ∨ pc = .indexed ∨ pc = .waiting) :
+    (h5 : pc ≠ .queued → pc ≠ .idle → ro ∈ s.indexedOnce)
+    (ha : s.everOn = false → pc = .queued ∨ pc = .indexed ∨ pc = .waiting ∨ pc = .idle) :
     Inv (setPc s ro w pc) := by
   have hst := started_of_worker hi hw
   refine ⟨?_, hi.c1, hi.c1', hi.c2, hi.c3, hi.c4, hi.c4', ?_, hi.c6, hi.c7, hi.c8, ?_, hi.b⟩
   · intro h; simp [setPc, hst] at h
-  · intro ro' w' hw' hpc
+  · intro ro' w' hw' hpc hpc2
     simp only [setPc] at hw'
     by_cases he : ro' = ro
     · subst he
       rw [upd_same] at hw'
       cases hw'
-      exact h5 hpc
+      exact h5 hpc hpc2
     · rw [upd_other _ _ _ he] at hw'
-      exact hi.c5 ro' w' hw' hpc
+      exact hi.c5 ro' w' hw' hpc hpc2
   · intro he
     refine ⟨(hi.a he).1, ?_⟩
     intro ro' w' hw'
@@ -141,6 +143,24 @@ theorem inv_setPc {s : GState R O} (hi : Inv s) (ro : R × O) (w : Worker) (pc :
       exact ⟨((hi.a he).2 ro' w hw).1, ha he⟩
     · rw [upd_other _ _ _ heq] at hw'
       exact (hi.a he).2 ro' w' hw'
+
+/-- re-arrival bookkeeping: a toggle is never lost from `objTog ∪ leaked` -/
+theorem keep_tog {h t : Bool} {x ro : R × O} {objTog leaked : List (R × O)}
+    (hm : ro ∈ objTog ∨ ro ∈ leaked) :
+    ro ∈ (if t = true then sadd x (if h = true then sdel x objTog else objTog)
+          else (if h = true then sdel x objTog else objTog)) ∨
+    ro ∈ (if h = true then x :: leaked else leaked) := by
+  cases h
+  · simp only [Bool.false_eq_true, if_false]
+    rcases hm with hm | hm
+    · exact Or.inl (mem_ite_sadd_of_mem hm)
+    · exact Or.inr hm
+  · simp only [if_true]
+    rcases hm with hm | hm
+    · by_cases he : ro = x
+      · exact Or.inr (by simp [he])
+      · exact Or.inl (mem_ite_sadd_of_mem (by rw [mem_sdel]; exact ⟨hm, he⟩))
+    · exact Or.inr (by simp [hm])
 
 theorem step_inv {s s' : GState R O} (l : Label R O) (hi : Inv s) (h : step .none s l = some s') : Inv s' := by
   cases l with
@@ -284,20 +304,22 @@ theorem step_inv {s s' : GState R O} (l : Label R O) (hi : Inv s) (h : step .non
             have hro' : ro ∈ (if (ind && !decide (r ∈ s.listed)) = true then sadd (r, o) s.listing
                                else s.listing) := hro
             have hni' : ro ∉ s.indexedOnce := hni
-            show ro ∈ (if (!decide (r ∈ s.detached) && ind) = true then sadd (r, o) s.objTog
-                        else s.objTog)
+            show ro ∈ (if (!decide (r ∈ s.detached) && ind) = true then
+                          sadd (r, o) (if holds s (r, o) = true then sdel (r, o) s.objTog else s.objTog)
+                        else (if holds s (r, o) = true then sdel (r, o) s.objTog else s.objTog)) ∨
+                 ro ∈ (if holds s (r, o) = true then (r, o) :: s.leaked else s.leaked)
             by_cases hcond : (ind && !decide (r ∈ s.listed)) = true
             · rw [if_pos hcond, mem_sadd] at hro'
               simp only [Bool.and_eq_true, Bool.not_eq_true', decide_eq_false_iff_not] at hcond
               have hd := hnew hcond.1 hcond.2
               rcases hro' with hro' | hro'
               · subst hro'
-                exact mem_ite_sadd_self (by simp [hd, hcond.1])
-              · exact mem_ite_sadd_of_mem (hi.c3 ro hro' hni')
+                exact Or.inl (mem_ite_sadd_self (by simp [hd, hcond.1]))
+              · exact keep_tog (hi.c3 ro hro' hni')
             · rw [if_neg hcond] at hro'
-              exact mem_ite_sadd_of_mem (hi.c3 ro hro' hni')
+              exact keep_tog (hi.c3 ro hro' hni')
           · -- c5
-            intro ro w hw' hpc
+            intro ro w hw' hpc hpc2
             have hw'' : upd s.workers (r, o) (some ⟨.queued, gated, hasToggle⟩) ro = some w := by
               rw [hg1, hg2]; exact hw'
             show ro ∈ s.indexedOnce
@@ -307,7 +329,7 @@ theorem step_inv {s s' : GState R O} (l : Label R O) (hi : Inv s) (h : step .non
               cases hw''
               exact absurd rfl hpc
             · rw [upd_other _ _ _ he] at hw''
-              exact hi.c5 ro w hw'' hpc
+              exact hi.c5 ro w hw'' hpc hpc2
           · -- a
             intro he
             have he' : s.everOn = false := he
@@ -379,11 +401,25 @@ theorem step_inv {s s' : GState R O} (l : Label R O) (hi : Inv s) (h : step .non
           ⟨hi.c0, hi.c1, hi.c1', hi.c2,
            (fun ro hro hni => hi.c3 ro hro (fun hm => hni (by simp [mem_sadd, hm]))),
            hi.c4, hi.c4',
-           (fun ro w' hw' hpc' => by simp [mem_sadd, hi.c5 ro w' hw' hpc']),
+           (fun ro w' hw' hpc' hpc2 => by simp [mem_sadd, hi.c5 ro w' hw' hpc' hpc2]),
            hi.c6, hi.c7, hi.c8, hi.a,
            (fun he => ready1_mono (hi.b he) rfl rfl (fun _ h => h) (fun _ h _ => h)
               (fun ro h => by simp [mem_sadd, h]))⟩
-          hw (fun _ => by simp [mem_sadd]) (fun _ => Or.inr (Or.inl rfl))
+          hw (fun _ _ => by simp [mem_sadd]) (fun _ => Or.inr (Or.inl rfl))
+        subst h
+        exact hi'
+      · simp [hpc] at h
+  | indexFail r o =>
+    simp only [step] at h
+    cases hw : s.workers (r, o) with
+    | none => simp [hw] at h
+    | some w =>
+      simp only [hw] at h
+      by_cases hpc : w.pc = .queued
+      · simp only [hpc, if_true, Option.some.injEq] at h
+        have hi' := inv_setPc (s := { s with failed := true }) (ro := (r, o)) (w := w) (pc := .idle)
+          ⟨hi.c0, hi.c1, hi.c1', hi.c2, hi.c3, hi.c4, hi.c4', hi.c5, hi.c6, hi.c7, hi.c8, hi.a, hi.b⟩
+          hw (fun _ h2 => absurd rfl h2) (fun _ => Or.inr (Or.inr (Or.inr rfl)))
         subst h
         exact hi'
       · simp [hpc] at h
@@ -400,19 +436,21 @@ theorem step_inv {s s' : GState R O} (l : Label R O) (hi : Inv s) (h : step .non
           rcases hg.1 with h1 | h1
           · exact h1
           · exact absurd h1.1 (by decide)
-        have hio : (r, o) ∈ s.indexedOnce := hi.c5 (r, o) w hw (by simp [hpc])
+        have hio : (r, o) ∈ s.indexedOnce := hi.c5 (r, o) w hw (by simp [hpc]) (by simp [hpc])
         have hi' := inv_setPc
           (s := { s with objTog := if w.hasToggle then sdel (r, o) s.objTog else s.objTog })
           (ro := (r, o)) (w := w) (pc := .waiting)
           ⟨hi.c0, hi.c1, hi.c1', hi.c2,
            (fun ro hro hni => by
-              have := hi.c3 ro hro hni
               have hne : ro ≠ (r, o) := fun he => hni (he ▸ hio)
-              by_cases ht : w.hasToggle = true
-              · simp [ht, mem_sdel, this, hne]
-              · simp [ht, this]),
+              rcases hi.c3 ro hro hni with this | this
+              · left
+                by_cases ht : w.hasToggle = true
+                · simp [ht, mem_sdel, this, hne]
+                · simp [ht, this]
+              · exact Or.inr this),
            hi.c4, hi.c4', hi.c5, hi.c6, hi.c7, hi.c8, hi.a, hi.b⟩
-          hw (fun _ => hio) (fun _ => Or.inr (Or.inr rfl))
+          hw (fun _ _ => hio) (fun _ => Or.inr (Or.inr (Or.inl rfl)))
         subst h
         exact hi'
       · cases h
@@ -426,12 +464,12 @@ theorem step_inv {s s' : GState R O} (l : Label R O) (hi : Inv s) (h : step .non
       · simp only [hg, and_self, if_true, Option.some.injEq] at h
         have hst := started_of_worker hi hw
         have hready1 := ready1_of_ready hi hst (ready_of_isOn hi hg.2)
-        have hio : (r, o) ∈ s.indexedOnce := hi.c5 (r, o) w hw (by simp [hg.1])
+        have hio : (r, o) ∈ s.indexedOnce := hi.c5 (r, o) w hw (by simp [hg.1]) (by simp [hg.1])
         have hi' := inv_setPc (s := { s with everOn := true }) (ro := (r, o)) (w := w) (pc := .passed)
           ⟨(fun hs => by simp [hst] at hs),
            hi.c1, hi.c1', hi.c2, hi.c3, (fun _ _ => rfl), hi.c4', hi.c5, hi.c6, hi.c7, hi.c8,
            (fun he => by simp at he), (fun _ => hready1)⟩
-          hw (fun _ => hio) (fun he => by simp at he)
+          hw (fun _ _ => hio) (fun he => by simp at he)
         subst h
         exact hi'
       · simp [hg] at h
@@ -443,8 +481,8 @@ theorem step_inv {s s' : GState R O} (l : Label R O) (hi : Inv s) (h : step .non
       simp only [hw] at h
       by_cases hg : w.pc = .indexed ∧ w.gated = false
       · simp only [hg, and_self, if_true, Option.some.injEq] at h
-        have hio : (r, o) ∈ s.indexedOnce := hi.c5 (r, o) w hw (by simp [hg.1])
-        have hi' := inv_setPc (ro := (r, o)) (w := w) (pc := .passed) hi hw (fun _ => hio)
+        have hio : (r, o) ∈ s.indexedOnce := hi.c5 (r, o) w hw (by simp [hg.1]) (by simp [hg.1])
+        have hi' := inv_setPc (ro := (r, o)) (w := w) (pc := .passed) hi hw (fun _ _ => hio)
           (fun he => by have := ((hi.a he).2 (r, o) w hw).1; simp [hg.2] at this)
         subst h
         exact hi'
@@ -457,7 +495,7 @@ theorem step_inv {s s' : GState R O} (l : Label R O) (hi : Inv s) (h : step .non
       simp only [hw] at h
       by_cases hg : w.pc = .passed
       · simp only [hg, if_true, Option.some.injEq] at h
-        have hio : (r, o) ∈ s.indexedOnce := hi.c5 (r, o) w hw (by simp [hg])
+        have hio : (r, o) ∈ s.indexedOnce := hi.c5 (r, o) w hw (by simp [hg]) (by simp [hg])
         have hev : s.everOn = true := by
           cases he : s.everOn with
           | true => rfl
@@ -467,7 +505,7 @@ theorem step_inv {s s' : GState R O} (l : Label R O) (hi : Inv s) (h : step .non
         have hi' := inv_setPc (s := { s with handled := true }) (ro := (r, o)) (w := w) (pc := .handling)
           ⟨hi.c0, hi.c1, hi.c1', hi.c2, hi.c3, hi.c4, hi.c4', hi.c5, hi.c6, hi.c7, hi.c8,
            (fun he => by simp [hev] at he), hi.b⟩
-          hw (fun _ => hio) (fun he => by simp [hev] at he)
+          hw (fun _ _ => hio) (fun he => by simp [hev] at he)
         subst h
         exact hi'
       · simp [hg] at h
@@ -479,9 +517,8 @@ theorem step_inv {s s' : GState R O} (l : Label R O) (hi : Inv s) (h : step .non
       simp only [hw] at h
       by_cases hg : w.pc = .handling
       · simp only [hg, if_true, Option.some.injEq] at h
-        have hio : (r, o) ∈ s.indexedOnce := hi.c5 (r, o) w hw (by simp [hg])
-        have hi' := inv_setPc (ro := (r, o)) (w := w) (pc := .idle) hi hw (fun _ => hio)
-          (fun he => by have := ((hi.a he).2 (r, o) w hw).2; simp [hg] at this)
+        have hi' := inv_setPc (ro := (r, o)) (w := w) (pc := .idle) hi hw (fun _ h2 => absurd rfl h2)
+          (fun _ => Or.inr (Or.inr (Or.inr rfl)))
         subst h
         exact hi'
       · simp [hg] at h
@@ -493,7 +530,7 @@ theorem step_inv {s s' : GState R O} (l : Label R O) (hi : Inv s) (h : step .non
       simp only [hw] at h
       split at h
       · simp only [Option.some.injEq] at h
-        have hi' := inv_setPc (ro := (r, o)) (w := w) (pc := .queued) hi hw (fun hq => absurd rfl hq)
+        have hi' := inv_setPc (ro := (r, o)) (w := w) (pc := .queued) hi hw (fun hq _ => absurd rfl hq)
           (fun _ => Or.inl rfl)
         subst h
         exact hi'
@@ -508,12 +545,24 @@ theorem step_inv {s s' : GState R O} (l : Label R O) (hi : Inv s) (h : step .non
       · simp only [hg, if_true, Option.some.injEq] at h
         subst h
         have hst := started_of_worker hi hw
-        refine ⟨by simp [hst], hi.c1, hi.c1', hi.c2, hi.c3, hi.c4, hi.c4', ?_, hi.c6, hi.c7, hi.c8, ?_, hi.b⟩
-        · intro ro w' hw' hpc
+        refine ⟨by simp [hst], hi.c1, hi.c1', hi.c2, ?_, hi.c4, hi.c4', ?_, hi.c6, hi.c7, hi.c8, ?_, hi.b⟩
+        · intro ro hro hni
+          have := hi.c3 ro hro hni
+          show ro ∈ (if holds s (r, o) = true then sdel (r, o) s.objTog else s.objTog) ∨
+               ro ∈ (if holds s (r, o) = true then (r, o) :: s.leaked else s.leaked)
+          cases holds s (r, o)
+          · simpa using this
+          · simp only [if_true]
+            rcases this with this | this
+            · by_cases he : ro = (r, o)
+              · exact Or.inr (by simp [he])
+              · exact Or.inl (by rw [mem_sdel]; exact ⟨this, he⟩)
+            · exact Or.inr (by simp [this])
+        · intro ro w' hw' hpc hpc2
           simp only at hw'
           by_cases he : ro = (r, o)
           · subst he; rw [upd_same] at hw'; cases hw'
-          · rw [upd_other _ _ _ he] at hw'; exact hi.c5 ro w' hw' hpc
+          · rw [upd_other _ _ _ he] at hw'; exact hi.c5 ro w' hw' hpc hpc2
         · intro he
           refine ⟨(hi.a he).1, ?_⟩
           intro ro w' hw'
